@@ -33,14 +33,23 @@ def load(p, rep):
         if ln.strip() == "@maporder":
             maporder(rep)
             continue
+        if ln.startswith("@syncshim-dir"):
+            SHIMDIR.append(ln.split()[1])
+            continue
         if ln.startswith("@syncshim"):
             SHIM.append(ln.split()[1])
+            continue
+        if ln.startswith("@yieldfuncs"):
+            _, f, recv = ln.split()
+            YIELD.append((f, recv))
             continue
         parts = ln.split("\t")
         tgt = parts[0].strip()
         src = parts[1].strip() if len(parts) > 1 else ""
         rep[os.path.join(REPO, tgt)] = os.path.join(ENG, src) if src else ""
 SHIM = []
+SHIMDIR = []
+YIELD = []
 rep = {}
 load(os.path.join(ENG, "overlay", "base.list"), rep)
 for prop in sys.argv[1:]:
@@ -55,21 +64,59 @@ if extra:
         rep[os.path.join(REPO, tgt.strip())] = src.strip()  # absolute source path (mutated copy)
 # @syncshim <repo-rel file>: rewrite `import "sync"` of that file (as the build sees it, i.e. after any mutant
 # overlay) to the controlled-scheduler shim, and add the shim package as a virtual package of the repo module.
-if SHIM:
-    import re
-    outd = os.path.join(os.path.dirname(ENG), ".build", "syncshim")
-    for rel in SHIM:
-        tgt = os.path.join(REPO, rel)
-        srcp = rep.get(tgt, tgt)
+# @syncshim-dir <repo-rel dir>: the same for every non-test .go file of that directory that imports "sync" (as the build
+# sees them); files without the import are left alone, so a change that INTRODUCES package-level sync objects is shimmed too.
+# @yieldfuncs <repo-rel file> <receiver type>: every method of that receiver gets a scheduling point (ssync.Yield) as its
+# first statement, so that executions sharing only package-level state still interleave at storage-operation granularity.
+import re
+outd = os.path.join(os.path.dirname(ENG), ".build", "syncshim", "_".join(sys.argv[1:]) + ("_x" if extra else ""))
+def seen(rel):
+    tgt = os.path.join(REPO, rel)
+    return tgt, rep.get(tgt, tgt)
+def emit(rel, text):
+    dst = os.path.join(outd, rel)
+    os.makedirs(os.path.dirname(dst), exist_ok=True)
+    if not os.path.exists(dst) or open(dst).read() != text:
+        open(dst, "w").write(text)
+    rep[os.path.join(REPO, rel)] = dst
+IMP = r'(?m)^(\s*)"sync"\s*$'
+IMPNEW = r'\1sync "github.com/polynetwork/poly/common/verifhook/ssync"'
+for d in SHIMDIR:
+    names = set(f for f in os.listdir(os.path.join(REPO, d)) if f.endswith(".go") and not f.endswith("_test.go"))
+    for t in list(rep):  # files added by a mutant overlay
+        if os.path.dirname(t) == os.path.join(REPO, d) and t.endswith(".go") and not t.endswith("_test.go") and rep[t]:
+            names.add(os.path.basename(t))
+    for f in sorted(names):
+        rel = os.path.join(d, f)
+        tgt, srcp = seen(rel)
+        if not srcp or not os.path.exists(srcp):
+            continue
         s = open(srcp).read()
-        s2, n = re.subn(r'(?m)^(\s*)"sync"\s*$', r'\1sync "github.com/polynetwork/poly/common/verifhook/ssync"', s)
-        if n != 1:
-            sys.stderr.write("mkoverlay: %s does not import \"sync\" exactly once\n" % rel)
+        s2, n = re.subn(IMP, IMPNEW, s)
+        if n == 1:
+            emit(rel, s2)
+        elif n > 1:
+            sys.stderr.write("mkoverlay: %s imports \"sync\" more than once\n" % rel)
             sys.exit(3)
-        dst = os.path.join(outd, rel)
-        os.makedirs(os.path.dirname(dst), exist_ok=True)
-        if not os.path.exists(dst) or open(dst).read() != s2:
-            open(dst, "w").write(s2)
-        rep[tgt] = dst
+for rel in SHIM:
+    tgt, srcp = seen(rel)
+    s = open(srcp).read()
+    s2, n = re.subn(IMP, IMPNEW, s)
+    if n != 1:
+        sys.stderr.write("mkoverlay: %s does not import \"sync\" exactly once\n" % rel)
+        sys.exit(3)
+    emit(rel, s2)
+for rel, recv in YIELD:
+    tgt, srcp = seen(rel)
+    s = open(srcp).read()
+    s2, n = re.subn(r'(?m)^(func \(\w+ \*?%s\) \w+\([^\n]*\{)[ \t]*$' % re.escape(recv), r'\1\n\tverifYield()', s)
+    if n == 0:
+        sys.stderr.write("mkoverlay: no method of %s found in %s\n" % (recv, rel))
+        sys.exit(3)
+    emit(rel, s2)
+    pkg = re.search(r'(?m)^package (\w+)', s).group(1)
+    emit(os.path.join(os.path.dirname(rel), "zz_verif_yield.go"),
+         "//go:build verif\n\npackage %s\n\nimport \"github.com/polynetwork/poly/common/verifhook/ssync\"\n\nfunc verifYield() { ssync.Yield() }\n" % pkg)
+if SHIM or SHIMDIR or YIELD:
     rep[os.path.join(REPO, "common/verifhook/ssync/ssync.go")] = os.path.join(ENG, "inpkg/common/verifhook/ssync/ssync.go")
 print(json.dumps({"Replace": rep}, indent=1))
